@@ -20,7 +20,7 @@ func main() {
 	case "run":
 		runCmd(os.Args[2:])
 	case "list":
-		in, err := engine.Load("/repo", filepath.Join(verifDir, "harness"))
+		in, err := engine.Load(repoDir, filepath.Join(verifDir, "harness"))
 		if err != nil {
 			fmt.Println(err)
 			os.Exit(2)
@@ -54,7 +54,7 @@ func runCmd(args []string) {
 	params := fs.String("params", "", "k=v,k=v harness parameters")
 	fs.Parse(args)
 	t0 := time.Now()
-	in, err := engine.Load("/repo", filepath.Join(verifDir, "harness"))
+	in, err := engine.Load(repoDir, filepath.Join(verifDir, "harness"))
 	if err != nil {
 		fmt.Println(err)
 		os.Exit(2)
